@@ -29,6 +29,10 @@ type Spec struct {
 	FDSelect    []int    // CID only: FD index per glyph
 	// FDSelectFormat is 0 or 3 (CID only).
 	FDSelectFormat int
+	// PredefCharset, for name-keyed fonts: 1 or 2 writes the charset operator
+	// with the id of the Expert / ExpertSubset predefined charset (0: the
+	// operator is omitted, which means ISOAdobe).
+	PredefCharset int
 	// IndexOffSize, when 1..4, is the offSize of every INDEX (raised where
 	// the data needs more); 0 = the smallest possible.
 	IndexOffSize int
@@ -196,6 +200,9 @@ func Build(s Spec) []byte {
 		top = dictOp(dictInt5(top, 0), OpFDArray)
 		pFDSelect = len(top)
 		top = dictOp(dictInt5(top, 0), OpFDSelect)
+	}
+	if !s.CID && s.PredefCharset != 0 {
+		top = dictOp(dictInt(top, s.PredefCharset), OpCharset)
 	}
 	pCharStrings = len(top)
 	top = dictOp(dictInt5(top, 0), OpCharStrings)
